@@ -126,6 +126,12 @@ def _run_map(ctx, spec, rng):
     # choi_to_kraus works with absolute thresholds (its eigenvalue cut-off tol = 1e-9, and the 1e-8 of the Hermitian / PSD predicates it
     # branches on, which cannot be passed through): a map of magnitude 1e-6 is legitimately truncated, so the conversions are probed at magnitude >= 1
     tol_kw = {}
+    # a Choi matrix that is not Hermitian but lies inside the library's Hermiticity tolerance (allclose, rtol 1e-5 / atol 1e-8) is treated as
+    # Hermitian by choi_to_kraus: the anti-Hermitian part (at most that tolerance) may be dropped, and is admitted here
+    asym = float(np.abs(j_ref - j_ref.conj().T).max())
+    ctk_tol = 1e-6
+    if 0 < asym and bool(np.allclose(j_ref, j_ref.conj().T)):
+        ctk_tol += 2 * asym / (_FLOOR[0] + float(np.abs(j_ref).max()))
     k_lib = ctx.call(choi_to_kraus, j_ref.copy(), dim=[din, dout]) if mag >= 1 else FAILED
     if k_lib is not FAILED:
         if len(k_lib) and isinstance(k_lib[0], (list, tuple)):
@@ -137,22 +143,22 @@ def _run_map(ctx, spec, rng):
         else:
             got = ref.apply_kraus(x, ka, kb)
             j_back = ref.choi_of(ka, kb, din)
-        ctx.check("O3:choi_to_kraus-action", None, dev=_rel(got, want), tol=1e-6, sig=(din, dout, cplx, cls, rk), nt=nt, mech="choi_to_kraus:action",
+        ctx.check("O3:choi_to_kraus-action", None, dev=_rel(got, want), tol=ctk_tol, sig=(din, dout, cplx, cls, rk), nt=nt, mech="choi_to_kraus:action",
                   detail={"din": din, "dout": dout, "r": r, "cls": cls})
-        ctx.check("O3:choi_to_kraus-rebuilds", None, dev=_rel(j_back, j_ref), tol=1e-6, sig=(din, dout, cplx, cls, rk), nt=nt, mech="choi_to_kraus:rebuild",
+        ctx.check("O3:choi_to_kraus-rebuilds", None, dev=_rel(j_back, j_ref), tol=ctk_tol, sig=(din, dout, cplx, cls, rk), nt=nt, mech="choi_to_kraus:rebuild",
                   detail={"din": din, "dout": dout, "r": r, "cls": cls})
         # chain K -> J -> K' -> J' -> K'' -> J''
         j1 = ctx.call(kraus_to_choi, k_lib) if len(ka) else FAILED
         if j1 is not FAILED:
-            ctx.check("O4:chain", None, dev=_rel(j1, j_ref), tol=1e-6, sig=(din, dout, cls, 1), nt=nt, mech="chain:J'!=J", detail={"din": din, "dout": dout, "cls": cls})
+            ctx.check("O4:chain", None, dev=_rel(j1, j_ref), tol=ctk_tol, sig=(din, dout, cls, 1), nt=nt, mech="chain:J'!=J", detail={"din": din, "dout": dout, "cls": cls})
             k2 = ctx.call(choi_to_kraus, j1, dim=[din, dout], **tol_kw)
             if k2 is not FAILED and len(k2):
                 j2 = ctx.call(kraus_to_choi, k2)
                 if j2 is not FAILED:
-                    ctx.check("O4:chain", None, dev=_rel(j2, j_ref), tol=1e-6, sig=(din, dout, cls, 2), nt=nt, mech="chain:J''!=J", detail={"din": din, "dout": dout, "cls": cls})
+                    ctx.check("O4:chain", None, dev=_rel(j2, j_ref), tol=ctk_tol, sig=(din, dout, cls, 2), nt=nt, mech="chain:J''!=J", detail={"din": din, "dout": dout, "cls": cls})
                 y2 = ctx.call(apply_channel, x, k2)
                 if y2 is not FAILED:
-                    ctx.check("O4:chain-action", None, dev=_rel(y2, want), tol=1e-6, sig=(din, dout, cls), nt=nt, mech="chain:action", detail={"din": din, "dout": dout, "cls": cls})
+                    ctx.check("O4:chain-action", None, dev=_rel(y2, want), tol=ctk_tol, sig=(din, dout, cls), nt=nt, mech="chain:action", detail={"din": din, "dout": dout, "cls": cls})
     if cls == "cp":
         nat = ctx.call(natural_representation, list(a_ops))
         if nat is not FAILED:
